@@ -34,6 +34,9 @@ func genC20(r *core.Rand, p *core.Plan) {
 	p.Ops = append(p.Ops, core.Op{K: "mine", A: []int64{1, 100, -1, 600, int64(r.Uint64() >> 1)}})
 	p.Ops = append(p.Ops, core.Op{K: "sync"})
 	n := r.Range(4, 16)
+	if p.Cfg["thorough"] == 1 {
+		n = r.Range(12, 40)
+	}
 	for i := 0; i < n; i++ {
 		switch r.Weighted([]int{30, 12, 10, 12, 8, 10, 8, 5}) {
 		case 0: // send with a backend answer class; minconf 0 chains onto unconfirmed change
